@@ -292,11 +292,13 @@ impl<D: DataMut> ReaderFrom for ScalarZnx<D> {
         let new_cols: usize = reader.read_u64::<LittleEndian>()? as usize;
         let len: usize = reader.read_u64::<LittleEndian>()? as usize;
 
-        let expected_len: usize = new_n * new_cols * size_of::<i64>();
-        if expected_len != len {
+        let expected_len: Option<usize> = new_n
+            .checked_mul(new_cols)
+            .and_then(|x| x.checked_mul(size_of::<i64>()));
+        if expected_len != Some(len) {
             return Err(std::io::Error::new(
                 std::io::ErrorKind::InvalidData,
-                format!("ScalarZnx metadata inconsistent: n={new_n} * cols={new_cols} * 8 = {expected_len} != data len={len}"),
+                format!("ScalarZnx metadata inconsistent: n={new_n} * cols={new_cols} * 8 != data len={len}"),
             ));
         }
 
